@@ -34,7 +34,8 @@ PROP = {'rule': 'rapid state machine (-rapid.steps=50) over the real migration R
             'pkg': 'pkg/descheduler/controllers/migration',
             'files': ['C17/c17_migration_test.go'],
             'tests': [{'run': 'TestVerifC17History', 'quick': 600, 'quick_shards': 3, 'thorough': 3000, 'steps': 50},
-                      {'run': 'TestVerifC17UserInput', 'quick': 600, 'quick_shards': 1, 'thorough': 3000, 'shards': 4, 'steps': 50}]}],
+                      {'run': 'TestVerifC17UserInput', 'quick': 600, 'quick_shards': 1, 'thorough': 3000, 'shards': 4, 'steps': 50},
+                      {'run': 'TestVerifC17Extended', 'quick': 600, 'quick_shards': 1, 'thorough': 3000, 'shards': 4, 'steps': 50}]}],
  'manifest': {'technique': 'property-based testing (rapid): state-machine histories of reconcile / environment / clock / restart / '
                            'fault-injection actions against the real controller, with a recording evictor and an independent oracle on the raw API objects',
               'text': 'Generated-history search: every Evict call of a reservation-first job is stamped with the persisted Reservation and pod '
